@@ -40,12 +40,15 @@ type c17cfg struct {
 	history     bool
 	healAfter   int // history family: the TCP side fails for the first healAfter TCP queries/dials, then answers
 	tcpEvents   int
+	slow        bool // family: late UDP replies (after the 1 s retransmission), slow TCP replies, 2 s caller deadlines
+	udpPlanned  map[int]bool
+	tcpAnsweredAt map[int]time.Duration
 }
 
 func c17Setup(rc *RunCtx) simrt.Config {
 	r := rc.R
 	cfg, sname := drawSimConfig(r, 30000)
-	c := &c17cfg{tcpSent: map[int][]byte{}, udpSent: map[int][]byte{}, udpTC: map[int]bool{}, tcpSeen: map[int][][]byte{}, tcpDialsByCall: map[int]int{}, tcpAnswered: map[int]bool{}, tcpKilled: map[int]bool{}}
+	c := &c17cfg{udpPlanned: map[int]bool{}, tcpAnsweredAt: map[int]time.Duration{}, tcpSent: map[int][]byte{}, udpSent: map[int][]byte{}, udpTC: map[int]bool{}, tcpSeen: map[int][][]byte{}, tcpDialsByCall: map[int]int{}, tcpAnswered: map[int]bool{}, tcpKilled: map[int]bool{}}
 	c.callers = 1 + r.Choose(4)
 	for i := 0; i < c.callers; i++ {
 		c.perCall = append(c.perCall, 1+r.Choose(4))
@@ -64,6 +67,11 @@ func c17Setup(rc *RunCtx) simrt.Config {
 		c.pTC = 100
 		c.healAfter = 10 + r.Choose(25)
 	}
+	if !c.history && r.Choose(4) == 0 {
+		c.slow = true
+		c.pTC = []int{50, 100}[r.Choose(2)]
+	}
+	rc.Cfg["slow"] = c.slow
 	rc.Cfg["history"] = c.history
 	rc.Net.ChunkMode = r.Choose(3)
 	rc.Cfg["strategy"] = sname
@@ -96,6 +104,17 @@ func c17Main(rc *RunCtx) {
 				continue
 			}
 			call.Txs = append(call.Txs, Tx{Conn: sc.ID, WireID: wid, Step: simrt.S.Steps(), At: simrt.S.Elapsed()})
+			if c.slow {
+				if c.udpPlanned[call.Idx] {
+					continue // a retransmission of a query whose (late) reply is already under way
+				}
+				c.udpPlanned[call.Idx] = true
+			}
+			var udpDelay time.Duration
+			if c.slow && simrt.Choose(2) == 0 {
+				udpDelay = 1300 * time.Millisecond // the reply answers the 1 s retransmission
+				simrt.Fault("udp_reply_late")
+			}
 			tc := simrt.Choose(100) < c.pTC
 			pad := []int{0, 0, 3, 30}[simrt.Choose(4)]
 			b, info := w.MakeReply(q, ReplyInfo{Call: call.Idx, Conn: sc.ID, WireID: wid, Kind: "udp"}, false, pad)
@@ -116,6 +135,15 @@ func c17Main(rc *RunCtx) {
 			}
 			c.udpSent[call.Idx] = append([]byte(nil), b...)
 			c.udpTC[call.Idx] = tc
+			if udpDelay > 0 {
+				simrt.GoNamed(fmt.Sprintf("udpreply%d", call.Idx), func() {
+					simrt.Sleep(0, udpDelay)
+					if !sc.IsClosed() {
+						sc.WriteMsg(b, info)
+					}
+				}).Daemon = true
+				continue
+			}
 			sc.WriteMsg(b, info)
 		}
 	})
@@ -164,7 +192,12 @@ func c17Main(rc *RunCtx) {
 					simrt.Fault("tcp_reply_with_tc_bit")
 				}
 			}
+			if c.slow && simrt.Choose(2) == 0 {
+				simrt.Sleep(0, 400*time.Millisecond)
+				simrt.Fault("tcp_reply_slow")
+			}
 			c.tcpAnswered[call.Idx] = true
+			c.tcpAnsweredAt[call.Idx] = simrt.S.Elapsed()
 			c.tcpSent[call.Idx] = append([]byte(nil), b...)
 			sc.WriteMsg(b, info)
 		}
@@ -195,8 +228,13 @@ func c17Main(rc *RunCtx) {
 		simrt.GoNamed(fmt.Sprintf("caller%d", ci), func() {
 			for s := 0; s < c.perCall[ci] && rc.Viol == nil; s++ {
 				call := w.NewCall(ci, s, uint16(simrt.Choose(65536)), 1)
-				ctx, cancel := context.WithTimeout(context.Background(), 20*time.Second)
+				dl := 20 * time.Second
+				if c.slow && simrt.Choose(2) == 0 {
+					dl = 2 * time.Second
+				}
+				ctx, cancel := context.WithTimeout(context.Background(), dl)
 				call.Ctx = ctx
+				call.Deadline = simrt.S.Elapsed() + dl
 				w.Exchange(u, call)
 				cancel()
 				c17Check(rc, c, call)
@@ -251,8 +289,8 @@ func c17Check(rc *RunCtx, c *c17cfg, x *Call) {
 					refused = true
 				}
 			}
-			if c.tcpAnswered[x.Idx] && !c.tcpKilled[x.Idx] && !refused {
-				rc.Fail("tcp_answer_not_returned", "call %d: the UDP reply had TC set and the TCP server answered, but the call failed: %v", x.Idx, x.Err)
+			if c.tcpAnswered[x.Idx] && !c.tcpKilled[x.Idx] && !refused && c.tcpAnsweredAt[x.Idx] < x.Deadline {
+				rc.Fail("tcp_answer_not_returned", "call %d: the UDP reply had TC set and the TCP server answered at t=%v, before the caller's deadline t=%v, but the call failed at t=%v: %v", x.Idx, c.tcpAnsweredAt[x.Idx], x.Deadline, x.EndAt, x.Err)
 				return
 			}
 			if !c.tcpKilled[x.Idx] && !refused && len(seen) == 0 {
